@@ -31,8 +31,9 @@ theorem filter_all {α} (l : List α) : l.filter (fun _ => true) = l := by
   | cons a l ih => simp
 
 /-- every published diagnostic carries one of the three codes -/
-theorem C19_codes (st : Index) (dis : List String) (f : Path) (cy : List Cycle) (d : Diag)
-    (h : d ∈ st.hDiagnostics dis f cy) : d.code ∈ Generated.validDiagnosticCodes := by
+theorem C19_codes (st : Index) (dis : List String) (f : Path) (cy : List Cycle)
+    (res : Def → String → Option Def) (d : Diag)
+    (h : d ∈ st.hDiagnostics dis f cy res) : d.code ∈ Generated.validDiagnosticCodes := by
   unfold hDiagnostics at h
   simp only [List.mem_append] at h
   rcases h with (h | h) | h
@@ -49,8 +50,9 @@ theorem C19_codes (st : Index) (dis : List String) (f : Path) (cy : List Cycle) 
 /-- **C19 (exactly the findings minus the disabled codes).** What is published under a set of
     disabled codes is what would be published with nothing disabled, minus the diagnostics whose
     code is in the set — nothing else is dropped, nothing is added, order is kept. -/
-theorem C19_filter (st : Index) (dis : List String) (f : Path) (cy : List Cycle) :
-    st.hDiagnostics dis f cy = (st.hDiagnostics [] f cy).filter (fun d => !dis.contains d.code) := by
+theorem C19_filter (st : Index) (dis : List String) (f : Path) (cy : List Cycle)
+    (res : Def → String → Option Def) :
+    st.hDiagnostics dis f cy res = (st.hDiagnostics [] f cy res).filter (fun d => !dis.contains d.code) := by
   unfold hDiagnostics
   simp only [List.contains_nil, Bool.false_eq_true, if_false, List.filter_append, List.filter_map]
   congr 1
@@ -110,16 +112,16 @@ theorem C19_config_defaults (compiles : String → Bool) (l : Loaded)
     diagnostic is published iff it is a finding and its code is not listed; unknown codes in the
     list and the `exclude` entries (valid or not) change nothing. -/
 theorem C19_publish_config (compiles : String → Bool) (raw : RawConfig) (st : Index) (f : Path)
-    (cy : List Cycle) (d : Diag) :
-    d ∈ st.publish (Config.load compiles (.table raw)) f cy ↔
-      d ∈ st.hDiagnostics [] f cy ∧ d.code ∉ raw.disabledDiagnostics := by
+    (cy : List Cycle) (res : Def → String → Option Def) (d : Diag) :
+    d ∈ st.publish (Config.load compiles (.table raw)) f cy res ↔
+      d ∈ st.hDiagnostics [] f cy res ∧ d.code ∉ raw.disabledDiagnostics := by
   unfold publish
   rw [C19_filter, List.mem_filter]
   constructor
   · rintro ⟨hd, hc⟩
     refine ⟨hd, ?_⟩
     intro hmem
-    have hv := C19_codes st [] f cy d hd
+    have hv := C19_codes st [] f cy res d hd
     have : (Config.load compiles (.table raw)).disabledDiagnostics.contains d.code = true := by
       simp [Config.load, Config.fromRaw, List.mem_filter, hmem, hv]
     rw [this] at hc; cases hc
@@ -129,8 +131,9 @@ theorem C19_publish_config (compiles : String → Bool) (raw : RawConfig) (st : 
 
 /-- … and with no usable table everything is published -/
 theorem C19_publish_default (compiles : String → Bool) (l : Loaded)
-    (h : match l with | .table _ => False | _ => True) (st : Index) (f : Path) (cy : List Cycle) :
-    st.publish (Config.load compiles l) f cy = st.hDiagnostics [] f cy := by
+    (h : match l with | .table _ => False | _ => True) (st : Index) (f : Path) (cy : List Cycle)
+    (res : Def → String → Option Def) :
+    st.publish (Config.load compiles l) f cy res = st.hDiagnostics [] f cy res := by
   cases l <;> simp_all [Config.load, publish]
 
 /-! ### the latest content -/
@@ -194,9 +197,9 @@ theorem C19_undeclared_latest (pfx : Path) (cl : Bool) (st : Index) (f : Path) (
     the new version mentions the name any more, no undeclared-fixture diagnostic for that name is
     published after the change — whatever was published before. -/
 theorem C19_clears_undeclared (pfx : Path) (st : Index) (dis : List String) (f : Path) (v : Version)
-    (fr : FileRec) (hv : v.parsed = some fr) (n : String) (cy : List Cycle)
+    (fr : FileRec) (hv : v.parsed = some fr) (n : String) (cy : List Cycle) (res : Def → String → Option Def)
     (hgone : ∀ b, Event.scan b ∈ fr.events → ∀ r ∈ b.refs, r.name ≠ n) :
-    ∀ d ∈ (analyze pfx true st f v).1.hDiagnostics dis f cy, d.code = "undeclared-fixture" →
+    ∀ d ∈ (analyze pfx true st f v).1.hDiagnostics dis f cy res, d.code = "undeclared-fixture" →
       d.message ≠ "Fixture '" ++ n ++ "' is used but not declared as a parameter" := by
   intro d hd hcode hmsg
   unfold hDiagnostics at hd
@@ -222,23 +225,25 @@ theorem C19_clears_undeclared (pfx : Path) (st : Index) (dis : List String) (f :
 /-- **C19 (scope-mismatch diagnostics are anchored in the latest content).** After a valid
     version of `f` has been analysed (bookkeeping invariant of C06 assumed of the state before),
     every scope-mismatch diagnostic published for `f` is anchored at a fixture definition of that
-    version, and is a real scope inversion against a definition currently in the index. -/
+    version, and is a real scope inversion against the definition the resolver selects for one of
+    its dependencies — for the resolver the code uses (`scopeRes`), a definition currently in the
+    index. -/
 theorem C19_mismatch_latest (pfx : Path) (st : Index) (f : Path) (v : Version) (fr : FileRec)
-    (hv : v.parsed = some fr) (hinv : DefsTracked st)
+    (hv : v.parsed = some fr) (hinv : DefsTracked st) (imp : Path → String → Bool)
     (fd dd : Def)
     (h : (fd, dd) ∈ mismatchesIn (analyze pfx true st f v).1.defs
+        (scopeRes (analyze pfx true st f v).1.defs imp f)
         ((alookup (analyze pfx true st f v).1.fileDefs f).getD []) f) :
     fd ∈ (eventDefs fr.events).map (stampDef pfx st f) ∧
     dd ∈ (analyze pfx true st f v).1.defs ∧ dd.name ∈ fd.deps ∧ dd.scope < fd.scope := by
-  obtain ⟨h1, h2, h3, h4, h5⟩ := C16_mismatch_sound _ _ _ _ _ h
-  refine ⟨?_, h3, h4, h5⟩
+  obtain ⟨h1, h2, ⟨dep, hdep, hres⟩, h5⟩ := C16_mismatch_sound _ _ _ _ _ _ h
+  obtain ⟨m1, m2, _⟩ := C16_scopeRes_mem _ imp f fd dd dep hres
+  refine ⟨?_, m1, by rw [m2]; exact hdep, h5⟩
   rw [C06_defs_after_analyze pfx st f v fr hv hinv, List.mem_append] at h1
   rcases h1 with h1 | h1
   · have := (List.mem_filter.mp h1).2
     simp [h2] at this
   · exact h1
-
-/-! ### non-vacuity -/
 
 example : (Config.fromRaw (fun p => p != "[") { exclude := ["[", "build"], disabledDiagnostics := ["bogus", "scope-mismatch"] }) =
     { exclude := ["build"], disabledDiagnostics := ["scope-mismatch"] } := by decide
